@@ -27,6 +27,7 @@ import collections
 import json
 import random
 
+import jsonbackend  # noqa: F401 - VERIF_JSON_BACKEND switch, before typelib is imported
 import lib
 
 PROPS = [
